@@ -97,7 +97,7 @@ def record_run(tid, g1, g2, labels=None, stereo=False, changes=False):
     intern = {}
 
     def lab(x):
-        x = int(x)
+        x = tuple(int(y) for y in x) if isinstance(x, tuple) else int(x)       # == passes (element, colour) pairs
         if x not in intern:
             intern[x] = len(intern) + 1
         return intern[x]
@@ -136,7 +136,7 @@ def record_eq(tid, g1, g2):
     intern = {}
 
     def lab(x):
-        x = int(x)
+        x = tuple(int(y) for y in x) if isinstance(x, tuple) else int(x)       # == passes (element, colour) pairs
         if x not in intern:
             intern[x] = len(intern) + 1
         return intern[x]
